@@ -4,11 +4,11 @@ PROP = dict(
     harnesses={"c20_alarm": dict(sources=["harness/c20_alarm.cpp"])},
     legs=[
         # one case = one configuration x 6 boundary-biased "now" values, each through the probe and through enable()
-        dict(name="next", harness="c20_alarm", flavour="asan", mode="next", quick=400000, thorough=8000000),
+        dict(name="next", harness="c20_alarm", flavour="asan", mode="next", quick=700000, thorough=16000000),
         # 128 masks x 7 weekdays x 5 seconds-of-day x 7 now-vs-instant relations x 5 zone offsets
         dict(name="weekly-exhaustive", harness="c20_alarm", flavour="asan", mode="weekly-exhaustive",
              quick=156800, thorough=156800, scalable=False, exhaustive=True),
-        dict(name="history", harness="c20_alarm", flavour="asan", mode="history", quick=40000, thorough=1200000),
+        dict(name="history", harness="c20_alarm", flavour="asan", mode="history", quick=70000, thorough=2400000),
     ],
     rule=("next: a seeded alarm configuration (weekly: seconds-of-day x 7-bit mask; one-shot; workday: calendar with weekly default, "
           "holiday runs, make-up days and gaps of up to two years; cron: six fields built from '*', '?', values, names, lists, ranges "
